@@ -91,6 +91,9 @@ func (o Op) String() string {
 	case OpGet, OpRefresh:
 		return fmt.Sprintf("%s(%d, plans=%v)", opNames[o.Kind], o.Key, o.Plans[:2])
 	case OpIterate:
+		if o.Dur > 0 {
+			return fmt.Sprintf("Iterate(%d, clock +%d before ranging)", o.Which, o.Dur)
+		}
 		return fmt.Sprintf("Iterate(%d)", o.Which)
 	case OpInvalidateAll, OpCleanUp, OpViews:
 		return opNames[o.Kind]
@@ -263,25 +266,42 @@ func (r *Runner) exec(op *Op) (o obs) {
 	case OpSetMaximum:
 		c.SetMaximum(op.Max)
 	case OpIterate:
+		// the iterator value is created first; with op.Dur the clock moves before it is ranged over
+		// (an iteration judges expiry when it runs, not when its value was obtained)
+		hold := func() {
+			if op.Dur > 0 {
+				e.Clock.Advance(op.Dur)
+			}
+		}
 		switch op.Which {
 		case 0:
-			for k, v := range c.All() {
+			it := c.All()
+			hold()
+			for k, v := range it {
 				o.kv = append(o.kv, [2]int{k, v})
 			}
 		case 1:
-			for k := range c.Keys() {
+			it := c.Keys()
+			hold()
+			for k := range it {
 				o.onlyK = append(o.onlyK, k)
 			}
 		case 2:
-			for v := range c.Values() {
+			it := c.Values()
+			hold()
+			for v := range it {
 				o.onlyV = append(o.onlyV, v)
 			}
 		case 3:
-			for en := range c.Hottest() {
+			it := c.Hottest()
+			hold()
+			for en := range it {
 				o.entries = append(o.entries, en)
 			}
 		default:
-			for en := range c.Coldest() {
+			it := c.Coldest()
+			hold()
+			for en := range it {
 				o.entries = append(o.entries, en)
 			}
 		}
@@ -353,7 +373,7 @@ func (r *Runner) Step(op *Op) []Mismatch {
 		}
 	}
 	o := r.exec(op)
-	if op.Kind == OpAdvance {
+	if op.Kind == OpAdvance || (op.Kind == OpIterate && op.Dur > 0) {
 		m.now = e.Clock.NowNano()
 	}
 	log := e.Log[mark:]
